@@ -38,9 +38,11 @@ VARIANTS = {
                                             decay=0.75, block_size=4, nesterov=True)}, [(6, 3), (5,)]),
     "tf_sketchy": ({"kind": "tf", "o": dict(LR, so="sketchy", rank=2, SF=1, Start=2, momentum_decay=0.5,
                                             decay=0.75)}, [(6, 5), (5,)]),
+    # sharded state layout with SEVERAL preconditioned parameters: the per-parameter offsets into the
+    # stacked global statistics are static (non-leaf) fields, which a restore takes from the fresh init
+    "ds_shard": ({"kind": "ds", "o": dict(DS, mode="shard", D=2)}, [(4, 3), (5,), (3, 5), (2, 6)]),
 }
 THOROUGH_ONLY = {
-    "ds_shard": ({"kind": "ds", "o": dict(DS, mode="shard", D=2)}, [(4, 3), (5,)]),
     "ds_shard_compressed": ({"kind": "ds", "o": dict(DS, mode="shard", D=2, compression_rank=2)}, [(6, 5), (7,)]),
 }
 EAGER = ["ds_full", "ds_int8_momentum", "ds_compressed", "ds_fd", "sm3", "tf_shampoo", "tf_sketchy"]
